@@ -114,8 +114,8 @@ def vmop_cross_check(cases):
             continue        # NaN == NaN raw-bits shortcut of generic Eq (typed_agrees_when_tagged_eq_ff_refuted)
         if o != g:
             bad.append((line, g))
-    # guarded opcodes: ...IIG arithmetic equals the generic op on every pair; ...FFG arithmetic unless both are ints;
-    # the guarded orderings on two numbers (FFG: not both ints); guarded Eq/Ne when no operand is a float
+    # guarded opcodes: ...IIG arithmetic and orderings equal the generic op on every pair; ...FFG ones unless both
+    # are ints; guarded Eq/Ne when no operand is a float
     for _, _, line in cases:
         q, o = line.split("\t")
         t = q.split()
@@ -137,7 +137,7 @@ def vmop_cross_check(cases):
         if opn in ("Add", "Sub", "Mul", "Div", "Mod"):
             applies = fam == "IIG" or not both_int
         elif opn in ("Lt", "Le", "Gt", "Ge"):
-            applies = num and (fam == "IIG" or not both_int)
+            applies = fam == "IIG" or not both_int
         else:
             applies = ka != "float" and kb != "float" and (fam == "IIG" or not both_int)
         if not applies:
@@ -242,9 +242,7 @@ def tie_select(ctx, path):
     for op, l, r, sel, pr in probes:
         m = re.match(r"m=(\d+) (\S+)", pr)
         if int(m.group(1)) > 0 or m.group(2) == "P":
-            bitw = op in ("OpShl", "OpShr", "OpBitAnd", "OpBitOr", "OpBitXor")
-            sig = ("unguarded-bitwise-select:" if bitw and sel in ("O_ShlII", "O_ShrII", "O_AndII", "O_OrII", "O_XorII")
-                   else "unguarded-select:") + op + ":" + sel
+            sig = "unguarded-select:" + op + ":" + sel
             if sig in seen:
                 continue
             seen.add(sig)
@@ -397,11 +395,11 @@ def gen_cases():
                     cs.append(mk("typed-array-store", D, T, f"store:{src}:{v}",
                                  f"let a = {ctor}\na[0] = {arg(v, launder)}\nlet r = a[0]\n",
                                  f"let a = dyn({ctor})\nfn st(a, v) {{ a[0] = v\n return a[0] }}\nlet r = st(a, {dy(v)})\n"))
-    # no annotation, no dynamic code: sema gives `int OP float` the type of its LEFT operand (int) although the
-    # value is a float, so an enclosing operation is emitted as a typed int opcode (found by the C02 tie)
+    # no annotation, no dynamic code: regression cases for fix 1cf0449 (sema typed `int OP float` as its LEFT
+    # operand, so the enclosing operation was a typed int opcode on a float; found by the C02 tie)
     for op1 in ("*", "+", "-", "/"):
         for op2 in ("+", "*", "<", "==", "&"):
-            for a, b, D, T in (("2", "1.5", "int", "float"), ("1.5", "2", "float", "float"), ("2", "3", "int", "int")):
+            for a, b, D, T in (("2", "1.5", "float", "float"), ("1.5", "2", "float", "float"), ("2", "3", "int", "int")):
                 refb = f"fn g1(a, b) {{ let r = a {op1} b\n return r }}\nfn g2(a, b) {{ let r = a {op2} b\n return r }}\n"
                 cs.append(mk("mixed-arith-result", D, T, f"({a}{op1}{b}){op2}2:lit",
                              f"let r = ({a} {op1} {b}) {op2} 2\n",
@@ -455,7 +453,7 @@ SAME_TYPE = {("int", "int"), ("float", "float"), ("Array<Int>", "Array<Int>"), (
              ("Vec<Int>", "Vec<Int>"), ("Array<Bool>", "bool"), ("Array<Int>", "int"), ("Array<Float>", "float"), ("Vec<Int>", "int"),
              ("int*float", "int*float")}
 MISREAD_POSITIONS = ("typed-param", "inferred-param", "typed-return", "loop-bound", "while-bound", "typed-array-elem",
-                     "mixed-arith-result", "rebound-global")
+                     "rebound-global")
 
 
 def run_programs(path, progs, opts, budget=300000):
@@ -520,8 +518,6 @@ def classify(case, o, r):
         op = re.match(r"x(\S+?)y:", case["detail"]).group(1)
         if t1 == "int" and t2 == "int" and op in ARITH:
             return ("viol", f"ffg-int-promotion:{op}", what)
-        if op in ("<", "<=", ">", ">=") and rcl == "runtime:TypeError" and oout.startswith("false"):
-            return ("viol", f"guarded-cmp-nonnumeric-false:{op}", what)
     return ("viol", f"divergence:{pos}:{case['D']}<-{case['T']}:{ocl}-vs-{rcl}", what)
 
 
@@ -596,7 +592,9 @@ def run(ctx):
     ]
     ctx.cov["refuted_lemmas"] = [
         "unchecked_mismatch_refuted", "unchecked_mismatch_ff_refuted", "loop_ops_need_ints_refuted", "guarded_total_sound_refuted",
-        "select_never_unguarded_on_uncertain_refuted", "typed_agrees_when_tagged_eq_ii_refuted", "typed_agrees_when_tagged_eq_ff_refuted"]
+        "typed_agrees_when_tagged_eq_ii_refuted", "typed_agrees_when_tagged_eq_ff_refuted"]
+    ctx.cov["repaired"] = ["KF-C06-4 1cf0449 (sema: int OP float typed float)", "KF-C06-7 5bb247f (guarded orderings raise TypeError)",
+                           "KF-C06-8 da40ed1 (guarded int selection returns generic bitwise opcodes)"]
     proved = ctx.prove("C06", extracted=["ValueConsts", "Opcodes"])
     if ctx.tier == "thorough" and proved:
         ctx.coqchk("C06")
